@@ -434,8 +434,10 @@ def belongs(inv, prefixes):
 class Family:
     """One batch of scripts for one driver, validated by one trace specification."""
 
-    def __init__(self, name, driver, trace_module, scripts, gen_stats=None, env=None, race=False):
+    def __init__(self, name, driver, trace_module, scripts, gen_stats=None, env=None, race=False, post=None):
         self.name, self.driver, self.trace_module = name, driver, trace_module
+        # post(fam, dir) -> dict: an additional, non-judging pass over the logs of the family (kept in `dir`)
+        self.post = post
         self.scripts = scripts
         self.gen_stats = gen_stats or {}
         self.env = env
